@@ -231,9 +231,12 @@ type ApplyStageRunner struct {
 	output  chan<- *BlockItem
 	errors  chan<- error
 	metrics *PipelineMetrics
-	done    chan struct{}
-	running bool
-	mu      sync.Mutex
+	// onItemDone, if set, is called once for every item that has finished
+	// processing (applied, failed or skipped), before it is forwarded
+	onItemDone func()
+	done       chan struct{}
+	running    bool
+	mu         sync.Mutex
 }
 
 // NewApplyStageRunner creates a new runner for the apply stage.
@@ -267,6 +270,12 @@ func NewApplyStageRunner(
 // Must be called before Start() to avoid data races.
 func (r *ApplyStageRunner) SetMetrics(metrics *PipelineMetrics) {
 	r.metrics = metrics
+}
+
+// SetOnItemDone sets a callback invoked once per item when it has finished
+// processing. Must be called before Start() to avoid data races.
+func (r *ApplyStageRunner) SetOnItemDone(f func()) {
+	r.onItemDone = f
 }
 
 // Start starts the apply stage runner.
@@ -339,6 +348,9 @@ func (r *ApplyStageRunner) run(ctx context.Context) {
 
 // forwardItem sends an item to output and reports any apply errors.
 func (r *ApplyStageRunner) forwardItem(ctx context.Context, item *BlockItem) {
+	if r.onItemDone != nil {
+		r.onItemDone()
+	}
 	// Record metrics for items that went through the apply stage (both success and failure).
 	// Items with decode/validation errors are not applied and don't have apply metrics.
 	if r.metrics != nil && item.DecodeError() == nil && item.ValidationError() == nil {
